@@ -74,24 +74,26 @@ def linspace_rules(run, F):
                'table %s' % dtree.show(t))
     fn = one('linspace::linspace')
     t = N.tbl(fn)
-    s = src(fn.hir)
-    env = Env()
-    read_block(fn.hir, env)
-    step_if = [x for x in walk(fn.hir) if x.get('k') == 'If' and src(peel(x['ch'][0])) == '(n > 1)']
-    ok = len(step_if) == 1
-    det = 'no `if n > 1`'
-    if ok:
-        e2 = Env()
-        p = norm(step_if[0]['ch'][1], e2)
-        sym = lambda x: Poly.atom(('sym', x))
-        want = (sym('b') - sym('a')) * (sym('n') - Poly.const(1)).inv()
-        z = src(peel(step_if[0]['ch'][2]))
-        ok = p == want and z.endswith('zero()')
-        det = 'step = %s when n > 1 else %s' % (p.show(), z)
-    st = [x for x in walk(fn.hir) if x.get('k') == 'Struct']
-    fields = {f['field']: src(f['e']) for f in st[0]['fields']} if st else {}
-    ok2 = fields == {'start': 'a', 'step': 'step', 'index': '0', 'len': 'n'}
-    run.ob('GEN.linspace', fn, 'linspace(a, b, n)', ok and ok2, fn.loc(), det + '; fields %s' % fields)
+    from algebra import parse_poly
+    # Linspace { start: a, step, index: 0, len: n } with step = (b - a)/(n - 1) for n >= 2, else 0
+    bad = []
+    for nv in range(6):
+        rows = dtree.select_rows(t, {'n': nv})
+        if rows is None or len(rows) != 1:
+            bad.append('n=%d: %s row(s)' % (nv, 'unevaluable' if rows is None else len(rows)))
+            continue
+        m = re.fullmatch(r'Linspace\{(.*)\}', rows[0][1])
+        fields = dict(x.split(': ', 1) for x in dtree._split_top(m.group(1))) if m else {}
+        stepv = fields.get('step', '?')
+        if nv >= 2:
+            okp = parse_poly(stepv) == (parse_poly('b') - parse_poly('a')) * (parse_poly('n') - Poly.const(1)).inv()
+        else:
+            okp = stepv in ('Zero::zero()', '0', '0.')
+        if not (okp and fields.get('start') == 'a' and fields.get('index') == '0' and fields.get('len') == 'n'
+                and set(fields) == {'start', 'step', 'index', 'len'}) or rows[0][2]:
+            bad.append('n=%d: %s' % (nv, rows[0][1][:80]))
+    run.ob('GEN.linspace', fn, 'linspace(a, b, n)', not bad, fn.loc(),
+           'step = (b - a)/(n - 1) for n >= 2 else zero; start a, index 0, len n' + ('' if not bad else ' ; ' + '; '.join(bad[:3])))
     # range(): element count lints
     fn = one('linspace::range')
     for x, parents in walk_with_parents(fn.hir):
@@ -107,28 +109,26 @@ def linspace_rules(run, F):
                                 q_ = peel(s_.get('init', {}))
                                 quo = q_.get('k') == 'Binary' and q_['op'] == 'Div'
             generic = 'T' == x.get('ty')
-            run.ob('RANGE.trunc', fn, '`%s`' % src(x), not (quo and generic), loc(x),
+            run.ob('RANGE.trunc', fn, 'element count: generic quotient into %s()' % x['method'], not (quo and generic), loc(x),
                    'quotient of type %s flows into %s(): identity on the integer instances of '
                    'Number, so range(0, 5, 2) has 2 elements instead of 3' % (x.get('ty'), x['method']))
         if x.get('k') == 'MethodCall' and callee_is(x, 'Cast::cast') and x.get('ty') == 'usize':
             src_ty = peel(x['ch'][0]).get('ty')
             guarded = any(p.get('k') == 'If' for p in parents)
-            run.ob('RANGE.neg-cast', fn, '`%s` as usize' % src(peel(x['ch'][0])), guarded or src_ty == 'usize',
+            run.ob('RANGE.neg-cast', fn, 'element count cast to usize', guarded or src_ty == 'usize',
                    loc(x), 'a count of type %s (negative when the step points away from the end, e.g. '
                    'range(5, 2, 1) on i32) is cast to usize with no sign test' % src_ty)
     # full
     fn = [f for f in F.fns if f.crate == 'tea_core' and f.qpath.endswith('Vec1::full')][0]
-    s = src(fn.hir)
-    run.ob('GEN.full', fn, 'full', s == 'let iter = iter::repeat_n(v, len); Vec1::collect_from_trusted(iter)'
-           or s.replace('Self::', 'Vec1::') == 'let iter = iter::repeat_n(v, len); Vec1::collect_from_trusted(iter)',
-           fn.loc(), s)
-    for nm, want in (('Vec1Create::range', 'let start = start.unwrap_or(Zero::zero()); let step = step.unwrap_or(One::one()); '
-                      'Vec1::collect_from_trusted(linspace::range(start, end, step).map(IsNone::from_inner))'),
-                     ('Vec1Create::linspace', 'let start = start.unwrap_or(Zero::zero()); '
-                      'Vec1::collect_from_trusted(linspace::linspace(start, end, num).map(IsNone::from_inner))')):
+    s = N.one_leaf(N.tbl(fn))
+    run.ob('GEN.full', fn, 'full', s == 'Vec1::collect_from_trusted(iter::repeat_n(v, len))', fn.loc(), str(s))
+    for nm, want in (('Vec1Create::range', 'Vec1::collect_from_trusted(linspace::range(start.unwrap_or(Zero::zero()), end, '
+                      'step.unwrap_or(One::one())).map(IsNone::from_inner))'),
+                     ('Vec1Create::linspace', 'Vec1::collect_from_trusted(linspace::linspace(start.unwrap_or(Zero::zero()), '
+                      'end, num).map(IsNone::from_inner))')):
         fn = [f for f in F.fns if f.crate == 'tea_core' and f.qpath.endswith(nm)][0]
-        s = src(fn.hir)
-        run.ob('GEN.create', fn, nm, s == want, fn.loc(), s)
+        s = N.one_leaf(N.tbl(fn))
+        run.ob('GEN.create', fn, nm, s == want, fn.loc(), str(s))
 
 
 def collectors(run, F):
@@ -136,7 +136,7 @@ def collectors(run, F):
         'Vec1::collect_from_trusted': 'Vec1::collect_from_iter(iter)',
         'Vec1::try_collect_from_trusted': 'Vec1::try_collect_from_iter(iter)',
         'Vec1::collect_with_len': 'Vec1::collect_from_trusted(iter.to_trust(len))',
-        'Vec1::collect_from_opt_iter': 'let iter = iter.map(|v| v.unwrap_or_else(IsNone::none)); Vec1::collect_from_iter(iter)',
+        'Vec1::collect_from_opt_iter': 'Vec1::collect_from_iter(iter.map(|a0| a0.unwrap_or(NULL)))',
         'Vec1::empty': 'Vec1::collect_from_iter(iter::empty())',
         'Vec1Collect::collect_vec1': 'Vec1::collect_from_iter(self.into_iter())',
         'Vec1Collect::collect_trusted_vec1': 'Vec1::collect_from_trusted(self.into_iter())',
@@ -144,8 +144,8 @@ def collectors(run, F):
         'Vec1OptCollect::collect_vec1_opt': 'Vec1::collect_from_opt_iter(self.into_iter())',
         'Vec1TryCollect::try_collect_vec1': 'Vec1::try_collect_from_iter(self.into_iter())',
         'Vec1TryCollect::try_collect_trusted_vec1': 'Vec1::try_collect_from_trusted(self.into_iter())',
-        'CollectTrustedToVec::collect_trusted_to_vec': 'CollectTrusted::collect_from_trusted(self)',
-        'TryCollectTrustedToVec::try_collect_trusted_to_vec': 'CollectTrusted::try_collect_from_trusted(self)',
+        'CollectTrustedToVec::collect_trusted_to_vec': 'self.collect_from_trusted()',
+        'TryCollectTrustedToVec::try_collect_trusted_to_vec': 'self.try_collect_from_trusted()',
         'ToTrustIter>::to_trust': 'TrustIter::new(self.into_iter(), len)',
     }
     for q, w in want.items():
@@ -153,8 +153,8 @@ def collectors(run, F):
         if not fs:
             run.ob('COLL.delegate', 'tea_core', q, False, '', 'function not found')
             continue
-        s = src(fs[0].hir)
-        run.ob('COLL.delegate', fs[0], q.split('::')[-1] + ' of ' + q.split('::')[0], s == w, fs[0].loc(), s)
+        s = N.one_leaf(N.tbl(fs[0]))
+        run.ob('COLL.delegate', fs[0], q.split('::')[-1] + ' of ' + q.split('::')[0], s == w, fs[0].loc(), str(s))
 
 
 def try_collectors(run, F, cfg):
